@@ -65,7 +65,7 @@ impl Interp {
     /// Type error raised from native code (no variable info available).
     pub fn type_error_plain(&self, v: &Value, op: &str) -> LErr {
         let class = if op == "index" { ErrClass::Index } else { ErrClass::Arith };
-        self.lib_error(class, &format!("attempt to {} a {} value", op, v.type_name()))
+        self.rt_error(class, self.cur_line, &format!("attempt to {} a {} value", op, v.type_name()))
     }
 
     pub fn method_call_error(&self, p: &Program, name: KId, v: &Value, line: u32) -> LErr {
